@@ -199,8 +199,23 @@ namespace {
          auto o = Value::object();
          auto el = Value::array(), dl = Value::array();
          long i = 0;
+         // the newest declaration is asked for first (the previous observation ended with a refused position), then all in order
+         long newest = 0, newest_type = 0;
+         const std::size_t have = sc.elements().size();
+         bool newest_ok = true;
+         if (have > 0) {
+            try {
+               newest = did(*sc.elements().position(have - 1));
+               if (auto p = dynamic_cast<const ipr::Product*>(&sc.type())) newest_type = tid(*p->elements().position(have - 1));
+            }
+            catch (const std::logic_error&) { newest_ok = false; }
+         }
          for (auto& d : sc.elements()) { el.push(did(d)); dl.push(decl_obs(d, i)); ++i; }
          if (static_cast<long>(sc.elements().size()) != i or static_cast<long>(sc.size()) != i) el.push(-9);
+         if (have > 0 and (not newest_ok or el.size() < have or el.at(have - 1).as_int() != newest)) el.push(-8);
+         if (have > 0 and newest_ok and dynamic_cast<const ipr::Product*>(&sc.type()) != nullptr
+             and newest_type != tid(*dynamic_cast<const ipr::Product*>(&sc.type())->elements().position(have - 1))) el.push(-7);
+         try { (void)did(*sc.elements().position(have)); el.push(-6); } catch (const std::logic_error&) { }      // one past the end: refused
          o.set("elements", el);
          o.set("types", guarded([&] {
             auto a = Value::array();
